@@ -165,6 +165,7 @@ func (h *Host) activeHealthFails() int {
 // delta. It returns an error if the adjustment fails.
 func (h *Host) countRequest(delta int) error {
 	result := atomic.AddInt64(&h.numRequests, int64(delta))
+	verifCountEvent(h, 0, delta, result)
 	if result < 0 {
 		return fmt.Errorf("count below 0: %d", result)
 	}
@@ -175,6 +176,7 @@ func (h *Host) countRequest(delta int) error {
 // delta. It returns an error if the adjustment fails.
 func (h *Host) countFail(delta int) error {
 	result := atomic.AddInt64(&h.fails, int64(delta))
+	verifCountEvent(h, 1, delta, result)
 	if result < 0 {
 		return fmt.Errorf("count below 0: %d", result)
 	}
